@@ -107,8 +107,12 @@ type OpResult struct {
 	Steps    int
 }
 
+func faultKey(f *Fault) string { return fmt.Sprintf("\x00F%s@%d", f.Kind, f.At) }
+
 type runner struct {
-	epochMs int64
+	refFault *Fault
+	refCalls int
+	epochMs  int64
 	spec    *Spec
 	prop    string
 	docs    map[string]*docInst
@@ -199,6 +203,21 @@ func (r *runner) harnessExts() map[string]jsonata.Extension {
 func (r *runner) extFault(v interface{}) (interface{}, error) {
 	t := engine.Current()
 	if t == nil {
+		// faulted reference: the controller evaluates the call alone with
+		// the same fault plan
+		if f := r.refFault; f != nil {
+			r.refCalls++
+			if r.refCalls == f.At {
+				switch f.Kind {
+				case "ext-error":
+					return nil, &InjectedError{-1, -1, r.refCalls}
+				case "ext-undefined":
+					return nil, jtypes.ErrUndefined
+				case "ext-panic":
+					panic(injectedPanic{})
+				}
+			}
+		}
 		return v, nil
 	}
 	k := t.NextExtCall()
@@ -411,6 +430,14 @@ func Execute(spec *Spec, opt Options) *Result {
 					}
 					if _, done := r.refs[key]; !done {
 						r.refs[key], r.refStep[key] = r.reference(m.text, r.docs[op.Doc], vars, m.exts, op.Kind == "evalbytes")
+					}
+					if f := op.Fault; f != nil && f.Kind != "abort" && op.Kind == "eval" {
+						fk := key + faultKey(f)
+						if _, done := r.refs[fk]; !done {
+							r.refFault, r.refCalls = f, 0
+							r.refs[fk], _ = r.reference(m.text, r.docs[op.Doc], vars, m.exts, false)
+							r.refFault = nil
+						}
 					}
 				}
 			}
@@ -711,10 +738,19 @@ func (r *runner) postChecks(res *Result) {
 			seenPos[hk][fmt.Sprintf("%d.%d", ti, oi)] = true
 
 			r.extChecks(res, ti, oi, op, or, ei, key, ref)
-			if or.Fired == "abort" || or.Fired == "ext-error" || or.Fired == "ext-panic" || or.Fired == "ext-undefined" {
-				// narrow relaxation: the faulted operation's own outcome is
+			if or.Fired == "abort" {
+				// narrow relaxation: the aborted operation's own outcome is
 				// not compared with the fault-free reference
 				continue
+			}
+			if or.Fired != "" {
+				// extension faults: compare with the reference that was
+				// evaluated alone under the same fault plan
+				fref, ok := r.refs[tk+faultKey(op.Fault)]
+				if !ok || op.Kind != "eval" {
+					continue
+				}
+				ref = fref
 			}
 			if or.Outcome != ref {
 				v := Violation{Key: key, Task: ti, Op: oi,
